@@ -75,7 +75,13 @@ def make_origin(kind, shape, rng):
 
 def do_edit(las, what, rng):
     if what == "index":
-        how = rng.choice(["shift", "inplace", "replace", "tiny_shift", "tiny_first", "tiny_last", "tiny_last"])
+        how = rng.choice(["shift", "inplace", "replace", "tiny_shift", "tiny_first", "tiny_last", "tiny_last", "interior", "interior"])
+        if how == "interior" and len(las.curves[0].data) < 3:
+            how = "tiny_first"
+        if how == "interior":
+            # only the second sample moves: first and last stay, the first increment (STEP) changes
+            las.curves[0].data[1] += (las.curves[0].data[2] - las.curves[0].data[1]) * 0.4
+            return
         if how.startswith("tiny"):
             # edits far below the magnitude of the values but well above the printed precision
             delta = rng.choice([0.01, 0.001, 0.0001])
